@@ -6,8 +6,8 @@
 #include <openssl/x509v3.h>
 
 #ifndef XC_STR_MAX
-#define XC_STR_MAX (1UL << 20)          /* strings of 0..2^20 bytes are explored (is_fresh needs a bound) */
-#define XC_LIST_MAX (1UL << 20)         /* lists of 0..2^20 elements (unbounded jobs) */
+#define XC_STR_MAX (1UL << 16)          /* strings of 0..2^16 bytes are explored (is_fresh needs a bound; cost of the memcpy model grows with it: append 22 s, with 2^20 117 s) */
+#define XC_LIST_MAX (1UL << 16)         /* lists of 0..2^16 elements (unbounded jobs) */
 #endif
 #define XV_ASN1_MAX (1 << 24)           /* A1 */
 #define XV_FILE_MAX ((1UL << 31) - 1)   /* A2 */
@@ -29,7 +29,7 @@ const char *xv_g_str;                   /* see env/cert_env.h XC_REBASE */
 /* ---- certificate model */
 _Bool xv_subj_null; long xv_subj_calls;
 long xv_nm_calls, xv_nm_fills; const X509_NAME *xv_nm_name, *xv_nm_fill_name; char *xv_nm_buf; int xv_nm_fill_len;
-_Bool xv_cn_present; int xv_cn_len; char xv_cn_byte;
+_Bool xv_cn_present; int xv_cn_len, xv_cn_z; char xv_cn_byte;
 long xv_d2i_calls, xv_gn_live, xv_gn_free_calls; _Bool xv_gn_absent; int xv_gn_num, xv_gn_next, xv_gn_want;
 size_t xv_gn_match, xv_want_ord;
 GENERAL_NAME xv_gn_ent;
@@ -51,8 +51,8 @@ static inline void xc_ghost_havoc(void)
     xv_ld_calls = nondet_long(); xv_ld_name = nondet_voidp(); xv_ld_out = nondet_voidp(); xv_ld_ret = nondet_long(); xv_ld_data = nondet_voidp();
     xv_l1 = nondet_size_t(); xv_l2 = nondet_size_t(); xv_l3 = nondet_size_t(); xv_g_elem = nondet_voidp(); xv_g_p1 = nondet_voidp(); xv_g_str = NULL;
     xv_subj_null = nondet_bool(); xv_subj_calls = nondet_long();
-    xv_nm_calls = nondet_long(); xv_nm_fills = nondet_long(); xv_nm_name = nondet_voidp(); xv_nm_fill_name = nondet_voidp(); xv_nm_buf = nondet_voidp(); xv_nm_fill_len = nondet_int();
-    xv_cn_present = nondet_bool(); xv_cn_len = nondet_int(); xv_cn_byte = nondet_char();
+    xv_nm_calls = nondet_long(); xv_nm_fills = nondet_long(); xv_nm_name = nondet_voidp(); xv_nm_fill_name = nondet_voidp(); xv_nm_buf = NULL /* nothing filled yet */; xv_nm_fill_len = nondet_int();
+    xv_cn_present = nondet_bool(); xv_cn_len = nondet_int(); xv_cn_z = nondet_int(); xv_cn_byte = nondet_char();
     xv_d2i_calls = nondet_long(); xv_gn_live = nondet_long(); xv_gn_free_calls = nondet_long(); xv_gn_absent = nondet_bool();
     xv_gn_num = nondet_int(); xv_gn_next = nondet_int(); xv_gn_want = nondet_int(); xv_gn_match = nondet_size_t(); xv_want_ord = nondet_size_t();
     xv_gn_cur_payload = NULL; xv_gn_k_payload = nondet_voidp(); xv_gn_k_len = nondet_size_t(); xv_gn_k_byte = nondet_char(); xv_gn_cur_byte = nondet_char(); xv_gn_cur_match = 0;
@@ -101,11 +101,12 @@ struct xv_idx_param { size_t current_index; size_t target_index; char *p; };
     (xv_gn_match > xv_want_ord ==> (XC_P->p == xv_dup_fix && xv_dup_calls == 1 && xv_heap_live == xv_heap0 + 1 && \
                                              xv_dup_len == xv_gn_k_len && xv_dup_byte == xv_gn_k_byte)))
 #elif defined(XC_JOB_DIR)
-/* cert_get_dir_cn: get_cn() runs once, on the directory name of match number xv_want_ord */
+/* cert_get_dir_cn: get_cn() runs once, on the directory name of match number xv_want_ord; it returns the block OpenSSL filled, or NULL */
 #define XC_FS_INV_JOB (XC_P->current_index == xv_gn_match && XC_P->target_index == xv_want_ord && \
     (xv_gn_match <= xv_want_ord ==> (XC_P->p == NULL && xv_nm_calls == 0 && xv_nm_fills == 0 && xv_heap_live == xv_heap0)) && \
     ((xv_gn_match > xv_want_ord && xv_cn_present) ==> (xv_nm_calls == 2 && xv_nm_fills == 1 && xv_nm_name == xv_gn_k_payload && xv_nm_fill_name == xv_gn_k_payload && \
-                                             XC_P->p == xv_nm_buf && xv_nm_buf != NULL && xv_nm_fill_len == xv_cn_len + 1 && xv_heap_live == xv_heap0 + 1)) && \
+                                             xv_nm_fill_len == xv_cn_len + 1 && xv_nm_buf != NULL && (xv_cn_z == xv_cn_len ==> XC_P->p != NULL) && \
+                                             (XC_P->p != NULL ? (XC_P->p == xv_nm_buf && xv_heap_live == xv_heap0 + 1) : xv_heap_live == xv_heap0))) && \
     ((xv_gn_match > xv_want_ord && !xv_cn_present) ==> (xv_nm_calls == 1 && xv_nm_fills == 0 && xv_nm_name == xv_gn_k_payload && XC_P->p == NULL && xv_heap_live == xv_heap0)))
 #else
 /* foreach_san with the recording callback: one visit per matching entry */
